@@ -262,6 +262,19 @@ def r2(ctx):
     def is_ws_of(u, classes):
         return u[0] == 'call' and u[1] == WS and any(nosite(core(u[2][0])) == c for c in classes)
 
+    def flag_table_guards():
+        """guards of the cell loop that read a precomputed Vec<bool> (`a_space[a_idx]`): the whitespace test was moved into a table"""
+        out = []
+        for g in edge_guards(b):
+            t_ = core(g.atom()[0])
+            if g.block in info.inner.blocks and t_[0] == 'index' and core(t_[1])[0] in ('var', 'field') and g.atom()[1] is not None:
+                base = core(t_[1])
+                while base[0] == 'field':
+                    base = core(base[1])
+                if base[0] in ('var', 'phi'):
+                    out.append(g)
+        return out
+
     i_poly = poly._add(poly.var(info.ka), poly.const(1), 1)
     j_poly = poly._add(poly.var(info.kb), poly.const(1), 1)
 
@@ -307,6 +320,8 @@ def r2(ctx):
             wb = edges(lambda g: g.atom()[1] is False and is_ws_of(core(g.atom()[0]), [b_ch]))
             ok = bool(sido_f) and bool(wa) and bool(wb) and cfg.must_pass(b, entry, s.bb, via_edges=sido_f + wa) and \
                 cfg.must_pass(b, entry, s.bb, via_edges=sido_f + wb)
+            if not ok and not (wa or wb) and flag_table_guards():
+                raise AnchorMissing('the whitespace tests of the Replace candidate (the cell loop branches on a precomputed boolean table instead of Character::is_whitespace)')
             ctx.require(ok, b, 'guard|Replace-ws', 'Replace under spaces_insert_delete_only only if neither a_i nor b_j is whitespace',
                         'Replace can substitute a whitespace character although spaces_insert_delete_only is set', s.span)
         elif name == 'Swap':
@@ -329,6 +344,8 @@ def r2(ctx):
             w2 = ws_false_of(lambda u: nosite(u) == b_ch or prev_a(u))
             ok = bool(sido_f) and bool(w1) and bool(w2) and cfg.must_pass(b, entry, s.bb, via_edges=sido_f + w1) and \
                 cfg.must_pass(b, entry, s.bb, via_edges=sido_f + w2)
+            if not ok and not (w1 or w2) and flag_table_guards():
+                raise AnchorMissing('the whitespace tests of the Swap candidate (the cell loop branches on a precomputed boolean table instead of Character::is_whitespace)')
             ctx.require(ok, b, 'guard|Swap-ws', 'Swap under spaces_insert_delete_only only if neither swapped character is whitespace',
                         'under spaces_insert_delete_only a transposition that involves a whitespace character is still accepted '
                         '(one of the two swapped characters is never tested)', s.span)
